@@ -337,6 +337,16 @@ def run(ctx):
               "the TSV writer marks value-taking children with %s but the reader recognises %s" % (sorted(ws), sorted(rs)),
               desc="TSV placeholder name suffix agrees (%s)" % sorted(ws))
 
+    # ---------------- R5.6: per-entry flags of the traversal are reset for every entry
+    ctx.rule("R5.6", "the writers' traversal loops keep no conditional per-entry state from one entry to the next")
+    from sa.stale import check_no_stale_state
+    wfs = [m for c in [base] + writers for m in c.all_methods]
+    check_no_stale_state(ctx, "R5.6", wfs, {
+        ("Schema2Base._output_tags", "level_adj"): "indentation offset of a rooted library subtree; reset at every root tag",
+        ("Schema2DF._process_attributes", "attribute"): "the loop variable itself is re-spelled as an id inside the inner loop"},
+        "What is written for one entry then depends on the entries written before it (e.g. a library unit class loses its "
+        "description and attributes when an earlier class had library units).")
+
     # ---------------- R5.5
     n_loops = 0
     for cls in [base] + writers:
